@@ -223,6 +223,12 @@ func main() {
 			fmt.Println("translator error:", err)
 			os.Exit(2)
 		}
+		// compiled objects of an earlier run must never be taken for this run's
+		for _, base := range []string{"LockGen", "LockSelftest"} {
+			for _, ext := range []string{".vo", ".vos", ".vok", ".glob"} {
+				os.Remove(filepath.Join(*out, base+ext))
+			}
+		}
 		if err := os.WriteFile(filepath.Join(*out, "LockGen.v"), []byte(genCoq(t)), 0o644); err != nil {
 			fmt.Println("translator error:", err)
 			os.Exit(2)
